@@ -169,6 +169,7 @@ where
             rt::set_in_sim(true);
             let r = catch_unwind(AssertUnwindSafe(body));
             rt::sync::flush_wakeups();
+            rayon_shim::shim_shutdown_pool();
             rt::note_steps(shuttle::current::context_switches() as u64);
             rt::set_in_sim(false);
             let r = r.map_err(|e| {
